@@ -5,7 +5,7 @@ package server
 import "io"
 
 // C06 shim: exports the unexported relay functions of copy.go to the correspondence
-// harness (harness/core/verifh/relay.go) and the constants the Lean theorems are
+// harness (harness/core/verifh/relayc06/relay.go) and the constants the Lean theorems are
 // stated over.  Nothing here changes behaviour.
 
 // VerifErrDisconnect is copy.go's errDisconnect (compared by identity).
